@@ -239,25 +239,32 @@ class FTPProcessorSession(BaseProcessorSession):
         _logger.debug('Check if URL {} is file with {}.', request.url,
                       directory_url)
 
-        with self._processor.ftp_client.session() as session:
-            try:
-                yield from session.start_listing(directory_request)
-            except FTPServerError:
-                _logger.debug('Got an error. Assume is file.')
+        try:
+            with self._processor.ftp_client.session() as session:
+                try:
+                    yield from session.start_listing(directory_request)
+                except FTPServerError:
+                    _logger.debug('Got an error. Assume is file.')
 
-                if use_cache:
-                    self._processor.listing_cache[directory_url] = None
+                    if use_cache:
+                        self._processor.listing_cache[directory_url] = None
 
-                return
+                    return
 
-            temp_file = tempfile.NamedTemporaryFile(
-                dir=self._item_session.app_session.root_path,
-                prefix='tmp-wpull-list'
-            )
+                temp_file = tempfile.NamedTemporaryFile(
+                    dir=self._item_session.app_session.root_path,
+                    prefix='tmp-wpull-list'
+                )
 
-            with temp_file as file:
-                directory_response = yield from session.download_listing(
-                    file, duration_timeout=self._fetch_rule.duration_timeout)
+                with temp_file as file:
+                    directory_response = yield from session.download_listing(
+                        file,
+                        duration_timeout=self._fetch_rule.duration_timeout)
+        except REMOTE_ERRORS as error:
+            # The probe is only a hint. The request for the URL itself
+            # will meet the same problem and handle it as an item error.
+            _logger.debug('Got an error {}. Assume is file.', error)
+            return
 
         if use_cache:
             self._processor.listing_cache[directory_url] = \
